@@ -26,10 +26,10 @@ mk('m2_null_in_list', '''		values := jsonValue.GetArray()
 				continue
 			}
 			v.pushArrayPath(i)''')
-mk('m3_default_required', '''			if v.definition.InputValueDefinitionHasDefaultValue(inputFieldRef) {
-				return
-			}''', '''			if false && v.definition.InputValueDefinitionHasDefaultValue(inputFieldRef) {
-				return
+mk('m3_default_required', '''			if objectFieldValue == nil && v.definition.InputValueDefinitionHasDefaultValue(inputFieldRef) {
+				continue
+			}''', '''			if false && objectFieldValue == nil && v.definition.InputValueDefinitionHasDefaultValue(inputFieldRef) {
+				continue
 			}''')
 mk('m4_oneof_offbyone', '''	if totalFieldCount != 1 {''', '''	if totalFieldCount > 2 || totalFieldCount < 1 {''')
 mk('m5_enum_case', '''		value := jsonValue.GetStringBytes()
@@ -49,4 +49,23 @@ mk('m7_path_index', '''func (v *variablesVisitor) pushArrayPath(index int) {
 	v.path = append(v.path, pathItem{
 		kind:       pathItemKindArray,
 		arrayIndex: index + 1,''')
+# equivalent of seeded change C06-n2: every operation of the arena is judged, including the
+# operations that normalization detached from the document
+mk('m8_arena_loop', '''	v.walker.Walk(operation, definition, report)
+	if report.HasErrors() {
+		return report
+	}
+	return v.visitor.err''', '''	v.walker.Walk(operation, definition, report)
+	if report.HasErrors() {
+		return report
+	}
+	for i := range operation.OperationDefinitions {
+		if !operation.OperationDefinitions[i].HasVariableDefinitions {
+			continue
+		}
+		for _, ref := range operation.OperationDefinitions[i].VariableDefinitions.Refs {
+			v.visitor.EnterVariableDefinition(ref)
+		}
+	}
+	return v.visitor.err''')
 print("mutants written to /tmp/c06mut")
